@@ -393,6 +393,27 @@ def _gradterms_direct(rng, natm, ngrids):
     return out
 
 
+def _angc_direct(rng, nang, nrad, lmax, nalpha):
+    """Angular grid <-> spherical harmonics on long angular shells (Lebedev 434 ... 1202: grid levels 4+, or a user's
+    atom_grid), both directions, with outputs pre-filled by a sentinel (documented as overwritten)."""
+    from pyscf import gto
+    from ciderpress.pyscf.gen_cider_grid import CiderGrids
+    mol = gto.M(atom="He 0 0 0; H 0 0 1.1", basis="sto-3g", spin=1, verbose=0)
+    grids = CiderGrids(mol, lmax=lmax)
+    grids.atom_grid = {"He": (nrad, nang), "H": (max(4, nrad // 2), 302)}
+    grids.prune = None
+    grids.build(with_non0tab=False)
+    ind = grids.grids_indexer
+    ng = ind.all_weights.size
+    th_g = np.ascontiguousarray(rng.normal(size=(ng, nalpha)))
+    th_r = np.full((ind.nrad, ind.nlm, nalpha), 7.25)
+    ind.reduce_angc_ylm_(th_r, th_g, a2y=True)
+    th_r2 = np.ascontiguousarray(rng.normal(size=(ind.nrad, ind.nlm, nalpha)))
+    th_g2 = np.full((ng, nalpha), 7.25)
+    ind.reduce_angc_ylm_(th_r2, th_g2, a2y=False)
+    return {"a2y": th_r, "y2a": th_g2}
+
+
 def _flapl_direct(rng, molname, basis, n1, npts):
     """Fractional-Laplacian AO values and features: the contraction callbacks of frac_lapl.c run INSIDE pyscf's own OpenMP
     loop over (grid block, shell) tiles, so they are reachable only through this differential sweep (no TSan edges)."""
@@ -438,12 +459,16 @@ def _direct(case, rec, rng):
     natm = int(rng.choice([1, 2, 5]))
     ngt = int(rng.choice([1, 3, 17, 1000]))
     rec.tag("gradterms", "natm=%d ngrids=%d" % (natm, ngt))
+    ang = [590, 1202, 770, 434, 974][case["idx"] % 5]
+    ang_nrad, ang_lmax, ang_nal = int(rng.choice([9, 14, 23])), int(rng.choice([4, 6, 8])), int(rng.choice([1, 3, 8]))
+    rec.tag("angular_shell", "n_ang=%d nrad=%d lmax=%d nalpha=%d" % (ang, ang_nrad, ang_lmax, ang_nal))
 
     def run():
         r = np.random.default_rng(state)
         return {"numint": _numint_direct(raw, r, ng, nvv), "fft": _fft_direct(r, dims, nt, r2c, inplace, bf),
                 "evaluators": _evaluators_direct(r, nsamp), "gradterms": _gradterms_direct(r, natm, ngt),
-                "flapl": _flapl_direct(r, fl_mol, fl_basis, fl_n1, fl_npts)}
+                "flapl": _flapl_direct(r, fl_mol, fl_basis, fl_n1, fl_npts),
+                "angc": _angc_direct(r, ang, ang_nrad, ang_lmax, ang_nal)}
     set_threads(1)
     ref = run()
     # the sequential variants are the reference model of the parallel one
